@@ -3,6 +3,8 @@ import BasicModel.Lemmas.LexList
 import BasicModel.Lemmas.LexPost
 import BasicModel.Lemmas.LexStable
 import BasicModel.Lemmas.LexTrail
+import BasicModel.Lemmas.LexAll
+import BasicModel.Lemmas.LexAllPayload
 /-
   C05 — listing is faithful (lexer part): `Line::new(s).to_string()` re-lexes to the same line.
 
@@ -470,6 +472,233 @@ theorem tables_generated :
     (∀ p ∈ Gen.wordText, Word.text p.1 = p.2.toList) ∧ (∀ p ∈ Gen.operatorText, Operator.text p.1 = p.2.toList) :=
   ⟨Thm.Tables.keywords_generated, Thm.Tables.minutia_generated, Thm.Tables.word_text_generated,
    Thm.Tables.operator_text_generated⟩
+
+/-! ### the listing of EVERY line is a fixed point, up to three characterised exceptions
+
+  The results above start from a token list that is already canonical.  The following ones start from
+  an ARBITRARY source string.  They rest on the output invariant of the lexer (`Lemmas/LexAll*.lean`):
+
+  * every scanner is idempotent on its own output (`number_rerun`, `alphabetic_spec`, `minutia_spec`, …):
+    whatever token it produces for whatever text, the printed text of that token, followed by a character
+    the scanner stops at, is scanned back to the same token (`tok_rescan`, for the predicate `Tok`);
+  * the raw token list of every text is a `Chain` (`rawTokens_chain`): every token is `Tok`, and every
+    token is followed by a token whose first printed character it does not absorb — or both are
+    word-like, and then `separate_words` puts a blank between them;
+  * the four post-passes keep the `Chain` (`chain_postPasses`); after them no two word-like tokens are
+    adjacent and the line does not end in a blank run or in white space.
+
+  The exceptions (hypotheses of the fixed-point theorem, all on the token list `(lex s).2`):
+
+  * `tripleClash`: two comparison-operator tokens (`< = > <= >= <>`) separated by one blank run, or the
+    identifier `GO`, a blank run, and `TO` or the identifier `SUB` (the latter cannot survive
+    `collapse_triples`, it is part of the predicate the older lemmas use);
+  * `doubleClash`: two comparison-operator tokens directly adjacent;
+    both are the known finding K5 (the collapsing passes are not confluent), see
+    `adjacent_comparisons_not_faithful` and `adjacent_comparisons_not_faithful_2`;
+  * `remClash`: a `REM` token that is followed by anything else than its remark text (nothing, or one
+    final `Unknown` token): text glued to `REM` (`REMARK` is `REM`, `ARK`; known finding K4,
+    `remark_glued_to_REM`) or a `REM` that is not the first word of its run of letters (`AREM:X`), after
+    which the line was lexed as code; the listing separates the words, and then `REM` starts a remark.
+    The token lists differ, the parses do not (remark either way or rejected either way).
+-/
+
+/-- THE OUTPUT INVARIANT OF THE LEXER, for every source string: the token list is a `Chain` — every
+    token is one the scanners produce and scan back from their own text (`Tok`: identifiers are maximal
+    letter(+digit)(+suffix) runs without a reserved word inside, numerals re-scan to themselves, an
+    `Unknown` run holds no character that starts another token, blank runs are non-empty, …) and every
+    two neighbours are compatible (`Adj`); the remark text follows its marker as one final token -/
+theorem lex_output_chain (s : Str) : Chain (lex s).2 := lex_chain s
+
+/-- for every source string: no two word-like tokens are adjacent (from `separate_words`) -/
+theorem lex_output_wordClash (s : Str) : wordClash (lex s).2 = false := lex_wordClash s
+
+/-- for every source string: the line does not end in a blank run, an empty `Unknown` token or an
+    `Unknown` token with trailing white space (from `trim_end`; cf. `trimEnd_idem`) -/
+theorem lex_output_endOk (s : Str) : endOk (lex s).2 = true := lex_endOk s
+
+example : Chain (lex "10 IFATHENPRINTB".toList).2 ∧ wordClash (lex "10 IFATHENPRINTB".toList).2 = false ∧
+    endOk (lex "10 IFATHENPRINTB".toList).2 = true :=
+  ⟨lex_output_chain _, lex_output_wordClash _, lex_output_endOk _⟩
+
+/-- what the `Chain` of a lexed line says about two neighbours that are not a remark marker and its text:
+    the left one is a scanner product, and it does not absorb the first printed character of the right one -/
+theorem lex_output_neighbours (s : Str) (pre : List Token) (a b : Token) (rest : List Token)
+    (h : (lex s).2 = pre ++ a :: b :: rest) (hpre : ∀ t ∈ pre, t ≠ .word .rem1)
+    (ha : a ≠ .word .rem1) (ha2 : a ≠ .word .rem2) : Tok a ∧ Bnd a (fc b) := by
+  have hc := lex_chain s
+  have hw := lex_wordClash s
+  rw [h] at hc hw
+  clear h
+  revert hc hw hpre
+  induction pre with
+  | nil =>
+    intro hpre hc hw
+    rcases hc with ⟨hr, -⟩ | ⟨-, h2, h3, -⟩
+    · rcases hr with e | e
+      · exact absurd e ha
+      · exact absurd e ha2
+    · simp only [List.nil_append, wordClash, Bool.or_eq_false_iff] at hw
+      unfold Adj at h3
+      rw [if_neg (by simp [hw.1])] at h3
+      exact ⟨h2, h3⟩
+  | cons x pre ih =>
+    intro hpre hc hw
+    have hx1 : x ≠ .word .rem1 := hpre x (by simp)
+    have hx2 : x ≠ .word .rem2 := by
+      intro e; subst e
+      cases pre with
+      | nil =>
+        rcases hc with ⟨-, hr, -⟩ | ⟨h1, -⟩
+        · exact absurd hr (by simp)
+        · exact h1 rfl
+      | cons y pre' =>
+        rcases hc with ⟨-, hr, -⟩ | ⟨h1, -⟩
+        · exact absurd hr (by simp)
+        · exact h1 rfl
+    refine ih (fun t ht => hpre t (by simp [ht])) (chain_tail x _ hc hx1 hx2) ?_
+    cases hl : pre ++ a :: b :: rest with
+    | nil => rfl
+    | cons y l =>
+      rw [List.cons_append, hl] at hw
+      simp only [wordClash, Bool.or_eq_false_iff] at hw
+      exact hw.2
+
+example : Tok (.operator .equal) ∧ Bnd (.operator .equal) (fc (.literal (.integer ['1']))) :=
+  lex_output_neighbours "10 A=1".toList [.ident (.plain ['A'])] _ _ [] (by decide +kernel) (by decide)
+    (by decide) (by decide)
+
+/-- THE FIXED-POINT THEOREM FOR ALL STRINGS.  PARTIAL with respect to the property's quantifier by exactly
+    the three exclusions described above (K5 twice, K4 and its variant): for every other source string
+    the listed text lexes to the same line — same number, same tokens — and listing is idempotent. -/
+theorem relist_fixed_point_all_partial (s : Str) (h1 : tripleClash (lex s).2 = false)
+    (h2 : doubleClash (lex s).2 = false) (h3 : remClash (lex s).2 = false) :
+    lex (relist s) = lex s ∧ relist (relist s) = relist s :=
+  ⟨lex_relist_all s h1 h2 h3, relist_idempotent_all s h1 h2 h3⟩
+
+/-- the numbered-line variant: a program line keeps its number -/
+theorem relist_fixed_point_numbered_partial (s : Str) (n : Nat) (hn : (lex s).1 = some n)
+    (h1 : tripleClash (lex s).2 = false) (h2 : doubleClash (lex s).2 = false)
+    (h3 : remClash (lex s).2 = false) :
+    lex (RStd.natDigits n ++ ' ' :: printTokens (lex s).2) = (some n, (lex s).2) := by
+  have := lex_relist_all s h1 h2 h3
+  unfold relist at this
+  rw [hn] at this
+  rw [show printLine (some n) (lex s).2 = RStd.natDigits n ++ ' ' :: printTokens (lex s).2 from rfl] at this
+  rw [this, ← hn]
+
+/-- the direct-line variant: a line without number lists as a line without number -/
+theorem relist_fixed_point_direct_partial (s : Str) (hn : (lex s).1 = none)
+    (h1 : tripleClash (lex s).2 = false) (h2 : doubleClash (lex s).2 = false)
+    (h3 : remClash (lex s).2 = false) : lex (printTokens (lex s).2) = (none, (lex s).2) := by
+  have := lex_relist_all s h1 h2 h3
+  unfold relist at this
+  rw [hn] at this
+  rw [show printLine none (lex s).2 = printTokens (lex s).2 from rfl] at this
+  rw [this, ← hn]
+
+/-! #### non-vacuity: the hypotheses hold on concrete strings, and the theorem applies -/
+
+/-- packed keywords -/
+example : lex (relist "10 IFATHENPRINTB".toList) = lex "10 IFATHENPRINTB".toList :=
+  (relist_fixed_point_all_partial _ (by decide +kernel) (by decide +kernel) (by decide +kernel)).1
+
+example : relist "10 IFATHENPRINTB".toList = "10 IF A THEN PRINT B".toList := by decide +kernel
+
+/-- `?`, `'`, multi-byte characters in a string literal and in the remark, trailing blanks -/
+example : relist (relist "20 ?a$;\"grüß\";'naïve  café  ".toList) = relist "20 ?a$;\"grüß\";'naïve  café  ".toList :=
+  (relist_fixed_point_all_partial _ (by decide +kernel) (by decide +kernel) (by decide +kernel)).2
+
+/-- numerals with exponents, type suffixes, an exponent letter at the end of the line; a direct line -/
+example : lex (printTokens (lex "X=1.5e+10:Y=1d5:Z#=.5E-3!:W=1E".toList).2) =
+    (none, (lex "X=1.5e+10:Y=1d5:Z#=.5E-3!:W=1E".toList).2) :=
+  relist_fixed_point_direct_partial _ (by decide +kernel) (by decide +kernel) (by decide +kernel)
+    (by decide +kernel)
+
+/-- a direct line that starts with blanks and a number too large for a line number; `Unknown` runs;
+    a radix literal followed by a letter (pushed back upper-cased) -/
+example : lex (relist "  65530 @#é:&h1fg".toList) = lex "  65530 @#é:&h1fg".toList :=
+  (relist_fixed_point_all_partial _ (by decide +kernel) (by decide +kernel) (by decide +kernel)).1
+
+/-- comparison operators typed with blanks inside are collapsed, and the result is a fixed point when no
+    two of them end up next to each other -/
+example : (lex "30 IF A< =B THEN 10".toList).2 =
+      [.word .if, .whitespace 1, .ident (.plain ['A']), .operator .lessEqual, .ident (.plain ['B']),
+       .whitespace 1, .word .then, .whitespace 1, .literal (.integer ['1', '0'])] ∧
+    lex (relist "30 IF A< =B THEN 10".toList) = lex "30 IF A< =B THEN 10".toList :=
+  ⟨by decide +kernel,
+   (relist_fixed_point_all_partial _ (by decide +kernel) (by decide +kernel) (by decide +kernel)).1⟩
+
+/-- a well-formed remark satisfies the third hypothesis -/
+example : remClash (lex "40 REM so it is".toList).2 = false ∧ remClash (lex "40 X=1:REM".toList).2 = false := by
+  decide +kernel
+
+/-! #### payloads, for every source string and every context -/
+
+/-- string literals (generalises `string_payload_preserved` / `string_payload_open` from "the line starts
+    with the literal" to every position of every line): the text of every string-literal token of
+    `lex s` is a quote-free stretch of the source — after the line number — that follows a quote and runs
+    to the next quote or to the end of the line; character for character, multi-byte characters included -/
+theorem string_payload_preserved_all (s : Str) (p : Str) (h : .literal (.string p) ∈ (lex s).2) :
+    ∃ a b, (splitLineNumber s).2 = a ++ '"' :: p ++ b ∧ '"' ∉ p ∧ (b = [] ∨ b.head? = some '"') :=
+  string_payload_all s p h
+
+example : ∃ a b, "?A$;\"héllo, wörld\";B".toList = a ++ '"' :: "héllo, wörld".toList ++ b ∧
+    '"' ∉ "héllo, wörld".toList ∧ (b = [] ∨ b.head? = some '"') := by
+  have := string_payload_preserved_all "10 ?A$;\"héllo, wörld\";B".toList "héllo, wörld".toList (by decide +kernel)
+  rwa [show (splitLineNumber "10 ?A$;\"héllo, wörld\";B".toList).2 = "?A$;\"héllo, wörld\";B".toList from by
+    decide +kernel] at this
+
+/-- the remark after an apostrophe (generalises `remark_preserved_apostrophe` from "the line starts with
+    the apostrophe" to every line that holds the token `'`): the source after the line number is
+    `a ++ ' ++ u0`, and the lexed line ends with the remark text `u0` without its trailing white space as
+    one `Unknown` token (with `'` itself if nothing but white space follows).
+    PARTIAL: for lines without `REM` clash (see above); after `REM` the remark text is covered by
+    `remark_preserved_REM` (line starts with `REM`) only — what is missing for arbitrary contexts is the
+    statement "the token list covers the source text", which the scanners' push-backs (an exponent letter
+    or a rejected radix digit comes back upper-cased) make awkward to state. -/
+theorem remark_preserved_apostrophe_all_partial (s : Str) (h : .word .rem2 ∈ (lex s).2)
+    (hr : remClash (lex s).2 = false) :
+    ∃ a u0, (splitLineNumber s).2 = a ++ '\'' :: u0 ∧
+      (lex s).2.getLast? = some (if (trimEndStr u0).isEmpty then .word .rem2 else .unknown (trimEndStr u0)) :=
+  remark_apostrophe_all_partial s h hr
+
+example : (lex "10 ?1' Keep  THIS ü  ".toList).2.getLast? = some (.unknown " Keep  THIS ü".toList) ∧
+    .word .rem2 ∈ (lex "10 ?1' Keep  THIS ü  ".toList).2 ∧ remClash (lex "10 ?1' Keep  THIS ü  ".toList).2 = false := by
+  decide +kernel
+
+/-! #### the hypotheses are not vacuous and cannot be dropped -/
+
+/-- the clash predicates fire on the K5 line, on which the fixed point fails (`adjacent_comparisons_not_faithful`) -/
+theorem clash_hypotheses_needed_triple :
+    tripleClash (lex "CLEAR = < < =".toList).2 = true ∧
+    lex (relist "CLEAR = < < =".toList) ≠ lex "CLEAR = < < =".toList := by
+  refine ⟨by decide +kernel, ?_⟩
+  intro h
+  have := adjacent_comparisons_not_faithful
+  rw [h, this.1] at this
+  exact absurd this.2 (by decide)
+
+/-- K5 again, through `collapse_doubles` alone: `= <blank-free> < blank =` is stored as `=`, `<=`, listed
+    as `=<=` and entered again as `<=`, `=`; only `doubleClash` fires -/
+theorem adjacent_comparisons_not_faithful_2 :
+    (lex "CLEAR =< =".toList).2 = [.word .clear, .whitespace 1, .operator .equal, .operator .lessEqual] ∧
+    (lex (relist "CLEAR =< =".toList)).2 =
+      [.word .clear, .whitespace 1, .operator .lessEqual, .operator .equal] ∧
+    tripleClash (lex "CLEAR =< =".toList).2 = false ∧ doubleClash (lex "CLEAR =< =".toList).2 = true ∧
+    remClash (lex "CLEAR =< =".toList).2 = false := by
+  decide +kernel
+
+/-- the third hypothesis: K4 and its variant.  `REM` glued to text, or not the first word of its run of
+    letters: the token lists of the line and of its listing differ (the listed TEXT is a fixed point) -/
+theorem rem_hypothesis_needed :
+    (remClash (lex "10 REMark".toList).2 = true ∧ lex (relist "10 REMark".toList) ≠ lex "10 REMark".toList ∧
+      relist (relist "10 REMark".toList) = relist "10 REMark".toList) ∧
+    (remClash (lex "10 AREM:X".toList).2 = true ∧
+      (lex "10 AREM:X".toList).2 = [.ident (.plain ['A']), .whitespace 1, .word .rem1, .colon, .ident (.plain ['X'])] ∧
+      (lex (relist "10 AREM:X".toList)).2 =
+        [.ident (.plain ['A']), .whitespace 1, .word .rem1, .unknown [':', 'X']] ∧
+      tripleClash (lex "10 AREM:X".toList).2 = false ∧ doubleClash (lex "10 AREM:X".toList).2 = false) := by
+  decide +kernel
 
 end C05
 end Thm
